@@ -251,6 +251,17 @@ class World:
                 except Exception:
                     pass     # a pattern CPython's sre cannot parse (\\p{..}): left undefined -> unsupported on use
         for s in m.tree.body:
+            # module-level constants  NAME = relativedelta(k=<int>, ...) / timedelta(...)  (hoisted by refactorings)
+            if (isinstance(s, ast.Assign) and len(s.targets) == 1 and isinstance(s.targets[0], ast.Name) and s.targets[0].id not in m.globals
+                    and isinstance(s.value, ast.Call) and isinstance(s.value.func, ast.Name) and s.value.func.id in ("relativedelta", "timedelta")
+                    and not s.value.args and all(isinstance(k.value, ast.Constant) and isinstance(k.value.value, int) and k.arg for k in s.value.keywords)
+                    and s.value.func.id in m.imported_names):
+                kw = {k.arg: k.value.value for k in s.value.keywords}
+                try:
+                    m.globals[s.targets[0].id] = (models.make_relativedelta if s.value.func.id == "relativedelta" else models.make_timedelta)(None, [], kw)
+                except Exception:
+                    pass
+        for s in m.tree.body:
             if isinstance(s, ast.Assign) and len(s.targets) == 1 and isinstance(s.targets[0], ast.Name):
                 nm = s.targets[0].id
                 if nm not in m.globals and isinstance(s.value, ast.Call):
